@@ -10,6 +10,7 @@ package control
 
 import (
 	"bufio"
+	"bytes"
 	"context"
 	"fmt"
 	"io"
@@ -80,6 +81,12 @@ type c05CopyCase struct {
 	pending  bool
 	useRec   bool
 	srcPlain bool // src is the in-memory conn (exact segment boundaries, RST possible)
+	lwt      bool // in-memory src: the last segment is returned together with EOF / the error
+	chunked  bool // call relayChunkedSpliceCopy (the fallback when no splice pipe can be had) directly
+	halfWv   bool // the first writev of the gather write is cut short (relayAdvanceSegments must resume)
+	// observed by relayGatherWriteTestHook
+	obsGather  bool
+	obsBodyLen int
 }
 
 func (c *c05CopyCase) op() string {
@@ -104,7 +111,11 @@ func (c *c05CopyCase) op() string {
 	if c.eof {
 		term = "eof"
 	}
-	return fmt.Sprintf("copy %s %s%s%s %s %s", st, c05B(c.srcTCP), c05B(c.dstTCP), c05B(c.pending && c.srcTCP), term, cs)
+	if c.lwt {
+		term += "+"
+	}
+	// the pending bit is what was OBSERVED (the gather path really read a body), not what was intended
+	return fmt.Sprintf("copy %s %s%s%s %s %s", st, c05B(c.srcTCP), c05B(c.dstTCP), c05B(c.obsBodyLen > 0), term, cs)
 }
 
 func c05RunCopy(t *testing.T, c *c05CopyCase) string {
@@ -136,6 +147,7 @@ func c05RunCopy(t *testing.T, c *c05CopyCase) string {
 		side.local = &net.TCPAddr{IP: net.IPv4(127, 0, 0, 1), Port: 1}
 		side.remote = &net.TCPAddr{IP: net.IPv4(127, 0, 0, 1), Port: 2}
 		srcBase = side
+		side.rd.lastWithTerm = c.lwt
 		if c.stack == "buf" || c.stack == "snf" {
 			_, _ = peer.Write(first)
 		}
@@ -199,11 +211,11 @@ func c05RunCopy(t *testing.T, c *c05CopyCase) string {
 	case "snf":
 		// the production wiring for sniffable traffic: prefetch (16 bytes), ConnSniffer over the
 		// prefixedConn, SniffTcp with the whole request already queued
-		probe, _, ready, err := prefetchForTcpSniff(srcBase, 500*time.Millisecond, tcpSniffPrefetchBytes)
+		probe, _, ready, err := prefetchForTcpSniff(srcBase, 60*time.Second, tcpSniffPrefetchBytes)
 		if err != nil || !ready {
 			return "harness:prefetch"
 		}
-		sn := sniffing.NewConnSniffer(probe, 500*time.Millisecond)
+		sn := sniffing.NewConnSniffer(probe, 60*time.Second)
 		defer func() { _ = sn.Close() }()
 		if _, err := sn.SniffTcp(); err != nil {
 			return "harness:sniff:" + err.Error()
@@ -231,8 +243,49 @@ func c05RunCopy(t *testing.T, c *c05CopyCase) string {
 	}
 	var n int64
 	var err error
+	// observe the branch actually taken
+	relayGatherWriteTestHookMu.Lock()
+	relayGatherWriteTestHook = func(prefixLen, bodyLen int) { c.obsGather, c.obsBodyLen = true, bodyLen }
+	relayGatherWriteTestHookMu.Unlock()
+	defer func() {
+		relayGatherWriteTestHookMu.Lock()
+		relayGatherWriteTestHook = nil
+		relayGatherWriteTestHookMu.Unlock()
+	}()
+	if c.halfWv {
+		orig := relayWritevFunc
+		calls := 0
+		relayWritevFunc = func(fd int, iovs [][]byte) (int, error) {
+			calls++
+			total := 0
+			for _, v := range iovs {
+				total += len(v)
+			}
+			if calls == 1 && total >= 2 {
+				want := total / 2
+				var cut [][]byte
+				for _, v := range iovs {
+					if want == 0 {
+						break
+					}
+					if len(v) > want {
+						v = v[:want]
+					}
+					cut = append(cut, v)
+					want -= len(v)
+				}
+				return orig(fd, cut)
+			}
+			return orig(fd, iovs)
+		}
+		defer func() { relayWritevFunc = orig }()
+	}
 	out := VRecover(func() string {
-		n, err = defaultRelayCopyEngine{}.Copy(context.Background(), dst, src, record)
+		if c.chunked {
+			n, err = relayChunkedSpliceCopy(context.Background(), dstRelayT, sideTCP, record)
+		} else {
+			n, err = defaultRelayCopyEngine{}.Copy(context.Background(), dst, src, record)
+		}
 		return ""
 	})
 	_ = dstRelayT.CloseWrite()
@@ -249,7 +302,6 @@ func c05RunCopy(t *testing.T, c *c05CopyCase) string {
 	}
 	return fmt.Sprintf("out=%s ok=%s%s", c05Digest(got), c05B(err == nil), extra)
 }
-
 
 func c05GenCopyCase(r *VRand, stats *VStats) *c05CopyCase {
 	c := &c05CopyCase{eof: true, useRec: r.Bool()}
@@ -312,6 +364,22 @@ func c05GenCopyCase(r *VRand, stats *VStats) *c05CopyCase {
 		}
 		c.chunks = append(c.chunks, c05Chunk{gen: true, seed: r.Intn(256), len: l})
 	}
+	if c.srcPlain && len(c.chunks) > 0 && r.Chance(0.5) {
+		c.lwt = true
+		stats.Inc("copy.last-segment-with-end")
+	}
+	if c.dstTCP && len(c.content) > 1 && r.Chance(0.3) {
+		c.halfWv = true
+		stats.Inc("copy.first-writev-cut-short")
+	}
+	if r.Chance(0.06) {
+		// the chunked-splice fallback, streams around its 256 KiB accounting chunk
+		*c = c05CopyCase{stack: "plain", eof: true, srcTCP: true, dstTCP: true, useRec: r.Bool(), chunked: true}
+		for _, l := range [][]int{{262143}, {262144}, {262145}, {262144, 262144}, {524289}, {1}, {100000, 162144, 1}}[r.Intn(7)] {
+			c.chunks = append(c.chunks, c05Chunk{gen: true, seed: r.Intn(256), len: l})
+		}
+		stats.Inc("copy.chunked-splice-direct")
+	}
 	stats.Inc("copy.stack." + c.stack)
 	stats.Inc(fmt.Sprintf("copy.env.src%s.dst%s.pending%s", map[bool]string{true: "mem", false: c05B(c.srcTCP)}[c.srcPlain], c05B(c.dstTCP), c05B(c.pending)))
 	if len(c.content) == 0 {
@@ -333,12 +401,28 @@ func TestVerifC05Tcp(t *testing.T) {
 		n = 6000
 	}
 	for i := 0; i < n; i++ {
+		if i%12 == 5 {
+			// a destination that resets mid-transfer (bytes are left in the splice pipe), then a clean
+			// TCP-to-TCP splice copy in the same process: it must not start with another connection's bytes
+			st.Emit("oracle dst-reset-mid-transfer", c05RunDstFailure(t, r))
+			stats.Inc("copy.dst-reset-mid-transfer")
+			clean := &c05CopyCase{stack: "plain", eof: true, srcTCP: true, dstTCP: true, useRec: true,
+				chunks: []c05Chunk{{gen: true, seed: r.Intn(256), len: r.Range(1000, 300000)}}}
+			impl := c05RunCopy(t, clean)
+			st.Emit(clean.op(), impl)
+		}
 		c := c05GenCopyCase(r, stats)
-		op := c.op()
 		impl := c05RunCopy(t, c)
+		op := c.op()
 		if strings.HasPrefix(impl, "harness:") {
 			stats.Inc("discard." + impl)
 			continue
+		}
+		if c.obsGather {
+			stats.Inc("observed.gather-write")
+			if c.obsBodyLen > 0 {
+				stats.Inc("observed.gather-write-with-body")
+			}
 		}
 		st.Emit(op, impl)
 		if i < 3 {
@@ -346,4 +430,37 @@ func TestVerifC05Tcp(t *testing.T) {
 		}
 	}
 	stats.Write("c05tcp")
+}
+
+// c05RunDstFailure: TCP-to-TCP relay copy of 4 MiB whose destination peer reads a little and then
+// resets.  Copy must fail, and what the peer got must be a prefix of what was sent.
+func c05RunDstFailure(t *testing.T, r *VRand) string {
+	srcPeer, srcSide := c05TCPPair(t)
+	dstPeer, dstSide := c05TCPPair(t)
+	defer srcPeer.Close()
+	defer srcSide.Close()
+	defer dstSide.Close()
+	payload := c05GenBytes(r.Intn(256), 4<<20)
+	go func() {
+		_, _ = srcPeer.Write(payload)
+		_ = srcPeer.CloseWrite()
+	}()
+	gotCh := make(chan []byte, 1)
+	go func() {
+		buf := make([]byte, r.Range(1, 70000))
+		n, _ := io.ReadFull(dstPeer, buf)
+		_ = dstPeer.SetLinger(0)
+		_ = dstPeer.Close()
+		gotCh <- buf[:n]
+	}()
+	var rec atomic.Int64
+	_, err := defaultRelayCopyEngine{}.Copy(context.Background(), dstSide, srcSide, func(n int64) { rec.Add(n) })
+	got := <-gotCh
+	switch {
+	case err == nil:
+		return "bad:copy-succeeded-although-the-destination-reset"
+	case !bytes.HasPrefix(payload, got):
+		return "bad:destination-got-bytes-that-were-not-sent-in-this-order"
+	}
+	return "ok"
 }
